@@ -211,6 +211,8 @@ def hyp_job(job):
 
 
 def run(ctx):
+    from vlib import concur
+    concur.register(ctx, "C06")
     jobs = []
     for transport in ("udp", "tcp", "aa55"):
         for keep in (False, True):
@@ -224,4 +226,8 @@ def run(ctx):
 
 
 def replay(ctx, case):
+    if isinstance(case, dict) and case.get("overlap") and "callers" in case:
+        from vlib import concur
+        concur.replay(ctx.acc, case, concur.INVARIANTS["C06"], "C06")
+        return
     _apply(ctx.acc, case)
